@@ -42,7 +42,7 @@ def kf(harness: str, **args) -> bool:
     expressions over the harness arguments (known_findings.json).
     """
     for e in _known():
-        if e['harness'] == harness:
+        if e.get('fn') == harness:
             if eval(e['region'], {'__builtins__': {}}, dict(args)):
                 return True
     return False
@@ -125,3 +125,17 @@ class concrete:
         if self._cm is not None:
             return self._cm.__exit__(*exc)
         return False
+
+
+def fork_int(n, lo, hi):
+    """Case-split a symbolic int in lo..hi into a concrete int (the solver
+    decides which cases are feasible).  Use where the code under test would
+    otherwise hand the value to C code / string formatting."""
+    for v in range(lo, hi + 1):
+        if n == v:
+            return v
+    raise AssertionError('fork_int: value outside stated range')
+
+
+def fork_bool(b):
+    return True if b else False
